@@ -17,4 +17,5 @@ typedef struct
 	int		n_read, n_write, n_seek, n_trunc, n_close ;
 } MEMFILE ;
 extern MEMFILE mf [MF_NFILES] ;
+extern int mf_rsrc_closes, mf_rsrc_closed_fd ;
 #endif
